@@ -832,6 +832,12 @@ def _num(text, kind):
         return "?" + text
 
 
+def _seq(suffix, start):
+    """[i1][i2][i3] names the levels start, start+1, ... in order"""
+    idx = [int(x) for x in re.findall(r"\[i(\d+)\]", suffix)]
+    return idx == list(range(start, start + len(idx)))
+
+
 def _msg_name(expr):
     """"a" or fmt.Sprintf("a[%d]", i1) -> a"""
     m = re.match(r'^fmt\.Sprintf\("(.*?)((?:\[%d\])*)"(?:, i\d+)*\)$', expr) or re.match(r'^"(.*)"()$', expr)
@@ -850,9 +856,10 @@ def plan_of_body(body, patterns=None):
     L = [l.strip() for l in "".join(flat).split("\n")]
     out = ["W|%d" % (1 if any(l == "var raw map[string]interface{}" for l in L) else 0)]
     nbranch = 0
+    loops = []
     i = 0
     skip = (re.compile(r"^(\{|\}|return err|return nil|var raw map\[string\]interface\{\}|var plain \w+|var errs \[\]error|errs = append\(errs, err\)|"
-                       r"if err := (json\.Unmarshal|value\.Decode)\((value, )?&raw\); err != nil \{|\*j = \w+\(plain\)|for i\d+ := range plain[\w.\[\]]* \{|"
+                       r"if err := (json\.Unmarshal|value\.Decode)\((value, )?&raw\); err != nil \{|\*j = \w+\(plain\)|"
                        r"st := reflect\.TypeOf\(\w+\{\}\)|for i := range st\.NumField\(\) \{|delete\(raw, .*\)|if plain[\w.]* != nil \{)$"))
     while i < len(L):
         l = L[i]
@@ -896,14 +903,14 @@ def plan_of_body(body, patterns=None):
         m = re.match(r"^if " + _FLD + _IDX + r" != nil \{$", l)
         if m and "must be null" in nxt:
             e = re.match(r'^return fmt\.Errorf\("field %s: must be null", (.*)\)$', nxt)
-            out.append("N|%s|%d|%s" % (m.group(1) or "", m.group(2).count("["), _msg_name(e.group(1))) if e else "?" + l + nxt)
+            out.append("N|%s|%d|%s" % (m.group(1) or "", m.group(2).count("["), _msg_name(e.group(1))) if e and _seq(m.group(2), 0) else "?" + l + nxt)
             i += 2
             continue
         m = re.match(r"^if (plain[\w.]*(?:\[i\d+\])*) != nil && len\((plain[\w.]*(?:\[i\d+\])*)\) < (\d+) \{$", l)
         if m:
             e = re.match(r'^return fmt\.Errorf\("field %s length: must be >= %d", (.*), (\d+)\)$', nxt)
             f = re.match(r"^" + _FLD + _IDX + "$", m.group(1))
-            ok = e and f and e.group(2) == m.group(3) and m.group(1) == m.group(2)
+            ok = e and f and e.group(2) == m.group(3) and m.group(1) == m.group(2) and _seq(f.group(2), 1)
             out.append("A|%s|%d|<|%s|%s" % (f.group(1) or "", f.group(2).count("["), m.group(3), _msg_name(e.group(1))) if ok else "?" + l + nxt)
             i += 2
             continue
@@ -912,7 +919,7 @@ def plan_of_body(body, patterns=None):
             e = re.match(r'^return fmt\.Errorf\("field %s length: must be <= %d", (.*), (\d+)\)$', nxt)
             # an array limit names its field by a Sprintf or a plain literal; a string limit of a non-nillable field has the same shape:
             # told apart by the type of the field below (plan_diff), here by nothing: both are written A/L-neutral as 'G'
-            out.append("G|%s|%d|>|%s|%s" % (m.group(1) or "", m.group(2).count("["), m.group(3), _msg_name(e.group(1))) if e and e.group(2) == m.group(3) else "?" + l + nxt)
+            out.append("G|%s|%d|>|%s|%s" % (m.group(1) or "", m.group(2).count("["), m.group(3), _msg_name(e.group(1))) if e and e.group(2) == m.group(3) and _seq(m.group(2), 1) else "?" + l + nxt)
             i += 2
             continue
         m = re.match(r"^if len\(" + _FLD + r"\) < (\d+) \{$", l)
@@ -965,6 +972,16 @@ def plan_of_body(body, patterns=None):
                 ok = _num(e.group(3), "f") == _num(m.group(2), "f")
             out.append("B|%s|%d|-|%s|%s|%s|%s" % (m.group(5) or "", 1 if g else 0, m.group(3), _num(m.group(2), "f"), e.group(1), e.group(2)) if ok else "?" + l + nxt)
             i += 2
+            continue
+        m = re.match(r"^for i(\d+) := range (plain[\w.]*)((?:\[i\d+\])*) \{$", l)
+        if m:
+            # a range loop of a nest: level n ranges over the element reached through the indices of the levels before it
+            idx = [int(x) for x in re.findall(r"\[i(\d+)\]", m.group(3))]
+            n = int(m.group(1))
+            if not ((not idx and n in (0, 1)) or (idx and idx == list(range(idx[0], n)) and idx[0] in (0, 1))):
+                out.append("?" + l)
+            loops.append((n, m.group(2)))
+            i += 1
             continue
         if l.startswith("if err := mapstructure.Decode(raw, &plain.AdditionalProperties)"):
             out.append("X")
